@@ -5,6 +5,23 @@ MC_NOTE = ("Trusted: TLC and its fingerprinting, the Go toolchain, the projectio
            "small constants of the cfg files named in the evidence; beyond them the evidence is the replayed/validated executions only.")
 
 CHECKS = {
+    "C01": {
+        "engine": "IrcLine.tla", "level": "model_checking", "design_ref": "7 (C01)",
+        "technique": "TLA+ grammar-as-components spec (Render/Expected); TLC enumerates the bounded component product, every message replayed on ParseLine and over a real connection; TLC trace validation of randomly drawn messages",
+        "text": "IrcLine.tla defines what a conforming parser must deliver for every well-formed message. TLC enumerates the full product of small component alphabets "
+                "(tags incl. all five escapes, sources, verbs, middles, trailing incl. CTCP forms, spacing) and every message is replayed through ParseLine, the accessors and a "
+                "real connection in random read segmentations; messages drawn by the driver from large alphabets are validated by TLC per record. Bounded-exhaustive plus sampled; "
+                "TLC proves nothing beyond the alphabets.",
+        "note": MC_NOTE,
+    },
+    "C02": {
+        "engine": "IrcLine.tla", "level": "exploration", "design_ref": "7 (C02), 8",
+        "technique": "bounded-exhaustive byte-string sweep over the special alphabet declared with the IrcLine spec, then child-process connection sessions with markers (survival + in-order processing)",
+        "text": "Every string up to length L over the special alphabet and every prefix x verb-word x suffix string goes through ParseLine and Text/Target/Public under recover; every "
+                "panic class, every built-in verb x parameter shape x source, and random soups are then sent through real connections in child processes (tracking on/off), each "
+                "probe followed by a marker that must be dispatched in order. The enumeration is executed by the Go driver; TLC contributes the oracle only, which is why the level is exploration.",
+        "note": "Trusted: the Go toolchain and the harness. Inputs beyond the bounded alphabet/length are only sampled.",
+    },
     "C12": {
         "engine": "Tracker.tla", "level": "model_checking", "design_ref": "7 (C12), 4.4",
         "technique": "TLA+ relational model; TLC closure of reachable states; every state-graph edge replayed on the real tracker + TLC trace validation of recorded random histories",
